@@ -12,6 +12,14 @@ Proved: while the PUBREC record exists a retransmitted PUBLISH is **not** forwar
 record survives; PUBREL removes the record.
 Known finding F08 (recorded): the answer to the retransmission is PUBREC with reason 0x91 "packet
 identifier in use" — a failure code — for MQTT 5 (`C08_retransmit_reason`).
+
+Operation and history level (sections below; lemmas in `Mochi/Lemmas/BrokerInbound.lean`, the survival walk in
+`Mochi/Lemmas/BrokerInboundWalk.lean`, the concrete history and the counterexamples in `Mochi/Props/C08Demo.lean`):
+`C08_inbound_record_survives_step/_run/_history` (the open exchange survives every op — all 12 kinds — not in `InEnds`),
+`C08_accepted_qos2_shape/_tail/_opens` (PUBREC 0x00 first, ONE `publishToSubscribers` call, the record filed),
+`C08_retransmit_not_forwarded_op(_quiet)` (the retransmission: PUBREC 0x91 on its own connection, nothing routed or
+retained, every other object untouched), `C08_forwarded_exactly_once(_seq)` (histories
+`pre ++ [PUBLISH q2 k] ++ mid ++ [PUBREL k]`).
 -/
 namespace Mochi.Broker
 open Mochi.Topics
